@@ -178,7 +178,9 @@ func (dr *DatabaseRecovery) shouldRetry(err error) bool {
 func (dr *DatabaseRecovery) calculateDelay(attempt int) time.Duration {
 	delay := float64(dr.retryConfig.BaseDelay) * math.Pow(dr.retryConfig.BackoffFactor, float64(attempt-1))
 
-	if delay > float64(dr.retryConfig.MaxDelay) {
+	// (a zero base delay times an overflowed power is NaN, which compares false with
+	// everything and would convert to a huge negative duration)
+	if delay > float64(dr.retryConfig.MaxDelay) || math.IsNaN(delay) {
 		delay = float64(dr.retryConfig.MaxDelay)
 	}
 
